@@ -167,6 +167,25 @@ MUTANTS += [
     ("c18-normal-sample-shape", ["C18"], [(DN, "            return torchutils.split_leading_dim(samples, [context_size, num_samples])\n\n    def _mean(self, context):\n        if context is None:", "            return torchutils.split_leading_dim(samples, [num_samples, context_size])\n\n    def _mean(self, context):\n        if context is None:")], "SHAPE"),
 ]
 
+DD = "nflows/distributions/discrete.py"
+MUTANTS += [
+    # ---- C05 ----
+    ("c05-mean-method", ["C05"], [(DN, "        return self.mean_.reshape(self._shape)", "        return self.mean")], "RES-2"),
+    ("c05-mog-none-context", ["C05"], [(MADE2, "            num_rows = num_samples if context is None else context.shape[0]", "            num_rows = context.shape[0]")], "NULL-1"),
+    ("c05-flow-none-context", ["C05"], [(FB, "        elif embedded_context is None:\n            noise = self._distribution.sample(num_samples)\n        else:", "        else:")], "NULL-1"),
+    ("c05-normal-mean-none", ["C05"], [(DN, "        if context is None:\n            return self._log_z.new_zeros(self._shape)\n        else:\n            # The value of the context is ignored, only its size is taken into account.\n            return context.new_zeros(context.shape[0], *self._shape)", "        return context.new_zeros(context.shape[0], *self._shape)")], "NULL-1"),
+    ("c05-bernoulli-sign", ["C05"], [(DD, "log_prob = -inputs * F.softplus(-logits) - (1.0 - inputs) * F.softplus(logits)", "log_prob = -inputs * F.softplus(logits) - (1.0 - inputs) * F.softplus(-logits)")], "DIST-TERMS"),
+    ("c05-bernoulli-batchdims", ["C05"], [(DD, "log_prob = torchutils.sum_except_batch(log_prob, num_batch_dims=1)", "log_prob = torchutils.sum_except_batch(log_prob, num_batch_dims=2)")], "DIST-TERMS"),
+    ("c05-bernoulli-mean-logits", ["C05"], [(DD, "        logits = self._compute_params(context)\n        return torch.sigmoid(logits)", "        logits = self._compute_params(context)\n        return logits")], "DIST-TERMS"),
+    ("c05-cdn-sample-logstd", ["C05"], [(DN, "        stds = torch.exp(log_stds)\n", "        stds = log_stds\n")], "DIST-TERMS"),
+    ("c05-cdn-roles-swapped", ["C05"], [(DN, "        means, _ = self._compute_params(context)\n        return means", "        _, means = self._compute_params(context)\n        return means")], "DIST-TERMS"),
+    ("c05-mog-wrong-axis", ["C05"], [(MADE2, "                dim=-1,\n            ),\n            dim=-1,\n        )\n        return log_prob", "                dim=-2,\n            ),\n            dim=-1,\n        )\n        return log_prob")], "DIST-TERMS"),
+    ("c05-mog-no-mixture-weights", ["C05"], [(MADE2, "                log_mixture_coefficients\n                - 0.5", "                0.0\n                - 0.5")], "DIST-TERMS"),
+    ("c05-mog-sample-slot", ["C05"], [(MADE2, "                    outputs[:, feature, :, 1],\n                    outputs[:, feature, :, 2],", "                    outputs[:, feature, :, 2],\n                    outputs[:, feature, :, 1],")], "DIST-TERMS"),
+    ("c05-logz-param", ["C05", "C03"], [(DN, "        neg_energy = -0.5 * \\\n            torchutils.sum_except_batch(inputs ** 2, num_batch_dims=1)\n        return neg_energy - self._log_z", "        neg_energy = -0.5 * \\\n            torchutils.sum_except_batch(inputs ** 2, num_batch_dims=1)\n        return neg_energy")], "BASE-TERMS"),
+    ("c05-unresolved-attr", ["C05"], [(DN, "            return self._log_z.new_zeros(self._shape)", "            return self._log_z.new_zeros(self._event_shape)")], "RES-1"),
+]
+
 BENIGN = [
     ("b-c06-rename-local", ["C06"], [(MADE1, "        prev_out_degrees = self.initial_layer.degrees\n        for _ in range(num_blocks):", "        prev_out_degrees = self.initial_layer.degrees\n        for _blk in range(num_blocks):")]),
     ("b-c06-guard-form", ["C06"], [(MADE1, "if torch.all(self.degrees >= in_degrees).item() != 1:", "if not torch.all(in_degrees <= self.degrees):")]),
@@ -194,5 +213,6 @@ BENIGN = [
     ("b-c04-minus-spelling", ["C04"], [(FB, "        return samples, log_prob - logabsdet", "        return samples, -logabsdet + log_prob")]),
     ("b-c04-repeat-interleave", ["C04", "C18"], [(FB, "            embedded_context = torchutils.repeat_rows(\n                embedded_context, num_reps=num_samples\n            )\n\n        samples, logabsdet", "            embedded_context = embedded_context.repeat_interleave(num_samples, dim=0)\n\n        samples, logabsdet")]),
     ("b-c18-cat-branch", ["C18"], [(DB, "            return torch.cat(samples, dim=0 if context is None else 1)", "            if context is None:\n                return torch.cat(samples, dim=0)\n            return torch.cat(samples, dim=1)")]),
+    ("b-c05-none-guard-form", ["C05"], [(MADE2, "            num_rows = num_samples if context is None else context.shape[0]", "            if context is None:\n                num_rows = num_samples\n            else:\n                num_rows = context.shape[0]")]),
     ("b-c14-guard-order", ["C14"], [(NORM, "if self.training and not self.initialized:", "if not self.initialized and self.training:")]),
 ]
